@@ -179,7 +179,7 @@ StepExpr(f, en) ==
          IF st = "NE" THEN Res(PushItems(PushE(f, "ES", e, u), [i \in 1..Len(e.fs) |-> e.fs[i].e], 1))
          ELSE LET p == PopN(f, Len(e.fs))  bad == SlitProblem(prog, e, p.vs) IN
               IF bad.ek # "" THEN ResErr(f, bad.ek, bad.line)
-              ELSE Res(PushVIf(p.f, u, StructV(e.n, [i \in 1..Len(e.fs) |-> [n |-> e.fs[i].n, v |-> p.vs[i]]])))
+              ELSE Res(PushVIf(p.f, u, StructV(e.n, SlitFields(e, p.vs))))
     [] e.k = "dlit" ->
          \* each pair's value, then its key, onto the work list: the last pair's key runs first
          IF st = "NE"
